@@ -1,6 +1,6 @@
 /* C18 fault injection (see faultinj.h).  Every reference to malloc / calloc /
  * realloc / aligned_alloc / posix_memalign / free / eventfd / epoll_create /
- * epoll_create1 / pipe / pipe2 / socket / accept / accept4 / close / fopen / fclose / fwrite / fflush in the objects linked into the
+ * epoll_create1 / pipe / pipe2 / socket / socketpair / accept / accept4 / close / fopen / fclose / fwrite / fflush in the objects linked into the
  * driver (the repository's .c files and the driver itself) is redirected here
  * by the linker; __real_X is the sanitizer's / libc's X. */
 #include "faultinj.h"
@@ -23,6 +23,7 @@ int __real_epoll_create1(int);
 int __real_pipe(int[2]);
 int __real_pipe2(int[2], int);
 int __real_socket(int, int, int);
+int __real_socketpair(int, int, int, int[2]);
 int __real_close(int);
 FILE *__real_fopen(const char *, const char *);
 int __real_fclose(FILE *);
@@ -190,6 +191,13 @@ int __wrap_pipe(int fds[2])
 {
 	if (fd_attempt()) return -1;
 	int r = __real_pipe(fds);
+	if (r == 0) { got_fd(fds[0]); got_fd(fds[1]); }
+	return r;
+}
+int __wrap_socketpair(int d, int t, int p, int fds[2])     /* ONE attempt that yields two descriptors (or none) */
+{
+	if (fd_attempt()) return -1;
+	int r = __real_socketpair(d, t, p, fds);
 	if (r == 0) { got_fd(fds[0]); got_fd(fds[1]); }
 	return r;
 }
